@@ -1123,6 +1123,19 @@ def r_marker_reapply(ctx: Ctx, rule: str, declare: bool = True) -> None:
             if p.outcome == "raise":
                 run.ok(rule, inst)
                 continue
+            rebound = [nm for nm in (tp, pp) if env_at(p).get(nm) is not None]
+            if rebound:
+                run.fail(
+                    rule,
+                    inst,
+                    f"{c.name}.reapply re-binds its parameter `{rebound[0]}` (to `{src(env_at(p).get(rebound[0]))[:40]}`) before building the copy: "
+                    "the marker must carry exactly the target and payload it is given (None means no payload; keeping the old one "
+                    "hands stale rows to a re-targeted marker)",
+                    fi=mr,
+                    node=p.node,
+                    details=describe(p),
+                )
+                continue
             if src(v) == "self":
                 if has_fact(facts, "IS", tuple(sorted(("self.target", tp))), True) and has_fact(facts, "IS", tuple(sorted((pp, "self.payload"))), True):
                     run.ok(rule, inst)
